@@ -2,10 +2,12 @@ module verif
 
 go 1.23.0
 
-require github.com/hedzr/logg v0.0.0
+require (
+	github.com/hedzr/is v0.7.13
+	github.com/hedzr/logg v0.0.0
+)
 
 require (
-	github.com/hedzr/is v0.7.13 // indirect
 	golang.org/x/net v0.39.0 // indirect
 	golang.org/x/sys v0.32.0 // indirect
 	golang.org/x/term v0.31.0 // indirect
